@@ -234,6 +234,19 @@ def _enum_payload(V):
     return None
 
 
+def iter_elem_slice(x):
+    """x = element reference yielded by `for e in S.iter()/iter_mut()` -> S"""
+    if x[0] == "vfield" and x[2] == "0" and x[1][0] == "vdown" and x[1][2] == "Some":
+        c = x[1][1]
+        if is_call(c, "next") and c[2]:
+            lv = c[2][0]
+            if lv[0] == "loopvar" and lv[3] is not None and is_call(lv[3], "into_iter"):
+                it = lv[3][2][0]
+                if is_call(it, "iter_mut") or is_call(it, "iter"):
+                    return it[2][0]
+    return None
+
+
 def index_extent(idx):
     """E such that idx ranges over 0..E on the iterations of the enclosing loop: `for idx in 0..E` or
     `for (idx, _) in slice(ptr, E).iter().enumerate()`; None if idx is anything else"""
@@ -366,7 +379,16 @@ def rule_dropper(ctx, R):
         ok = len(dips) == 1
         if ok:
             a = N(dips[0][3][0])
-            ok = is_call(a, "add") and loop_item(a[2][1]) is not None and strip_epochs(loop_item(a[2][1])) == strip_epochs(rng)
+            # cell i for i in 0..len, addressed by index ...
+            ok = is_call(a, "add") and index_extent(a[2][1]) is not None and strip_epochs(index_extent(a[2][1])) == ("arg", 2)
+            if not ok:
+                # ... or handed out by iterating slice(base, len) (iter / iter_mut, possibly enumerated)
+                for x in subterms(a):
+                    sl = iter_elem_slice(x)
+                    if sl is not None:
+                        parts = slice_parts(sl)
+                        ok = parts is not None and strip_epochs(parts[1]) == ("arg", 2) and contains(parts[0], lambda y: y[0] == "load" and NL(y[1]) == ("field", ("deref", SELF), "0"))
+                        break
     R.check(ok, "C04-R3", "DataPtr::drop_to|loop", "drop_in_place(base+i) once per i in 0..len",
             "DataPtr::drop_to must drop cell i exactly once for each i in Range(0, len)", where_of(fn), fn=fn.key)
     # the only way out is exhaustion of that loop: an early return (e.g. for zero-sized T, which still has drop glue)
@@ -892,13 +914,29 @@ def rule_dataptr_primitives(ctx, R):
             ret = N(p.ret)
             def cell(v, i):
                 return is_call(v, "add") and is_base(v[2][0]) and v[2][1] == i
-            okr = is_call(ret, "assume_init") and is_call(ret[2][0], "ptr::read") and cell(ret[2][0][2][0], idx)
+            def is_read(v):
+                return is_call(v, "ptr::read") or is_call(v, "mut_ptr::read") or is_call(v, "const_ptr::read")
+
+            def copy_of(e):
+                """(src, dst, count) of a memory copy in any of its spellings"""
+                cn_ = cname(e[2])
+                a_ = [N(x) for x in e[3]]
+                if cn_.endswith(("ptr::copy", "ptr::copy_nonoverlapping")) and len(a_) == 3:
+                    return (a_[0], a_[1], a_[2])
+                if cn_.endswith(("_ptr::copy_to", "_ptr::copy_to_nonoverlapping")) and len(a_) == 3:
+                    return (a_[0], a_[1], a_[2])
+                if cn_.endswith(("_ptr::copy_from", "_ptr::copy_from_nonoverlapping")) and len(a_) == 3:
+                    return (a_[1], a_[0], a_[2])
+                return None
+
+            okr = is_call(ret, "assume_init") and is_read(ret[2][0]) and cell(ret[2][0][2][0], idx)
             R.check(okr, "C02-R3", "DataPtr::swap_remove|returns-cell(index)", "returns the value read out of cell `index`", "swap_remove returns %s; expected the value of cell `index`" % show(ret), where_of(f), fn=f.key)
-            cp = [e for e in p.effects if e[0] == "call" and cname(e[2]).endswith("ptr::copy")]
-            okc = len(cp) == 1 and cell(N(cp[0][3][0]), last) and cell(N(cp[0][3][1]), idx) and N(cp[0][3][2]) == ("const", 1)
+            cp = [e for e in p.effects if e[0] == "call" and copy_of(e) is not None]
+            cps = [copy_of(e) for e in cp]
+            okc = len(cp) == 1 and cell(cps[0][0], last) and cell(cps[0][1], idx) and cps[0][2] == ("const", 1)
             R.check(okc, "C02-R3", "DataPtr::swap_remove|moves-last-into-hole", "copies exactly one cell from `len-1` into `index`",
-                    "swap_remove copies %s; expected copy(src = cell len-1, dst = cell index, 1)" % [[show(N(a)) for a in e[3]] for e in cp], where_of(f), fn=f.key)
-            rd = [e for e in p.effects if e[0] == "call" and cname(e[2]).endswith("ptr::read")]
+                    "swap_remove copies %s; expected copy(src = cell len-1, dst = cell index, 1)" % [[show(x) for x in c_] for c_ in cps], where_of(f), fn=f.key)
+            rd = [e for e in p.effects if e[0] == "call" and (cname(e[2]).endswith("ptr::read") or cname(e[2]).endswith("_ptr::read"))]
             if rd and cp:
                 R.check(p.effects.index(rd[0]) < p.effects.index(cp[0]), "C02-R3", "DataPtr::swap_remove|read-before-copy", "the removed value is read before the hole is overwritten", "the copy precedes the read of the removed value", where_of(f), fn=f.key)
             dr = [e for e in p.effects if e[0] == "call" and (cname(e[2]).endswith("drop_in_place") or cname(e[2]).endswith("mem::drop"))] + [e for e in p.effects if e[0] == "drop" and e[6]]
@@ -946,7 +984,8 @@ def rule_forbidden_calls(ctx, R):
 # C04-R1 / C02-R3: allocation discipline of DataPtr (GlobalAlloc contract + "growth preserves the cells")
 # ----------------------------------------------------------------------------------
 ALLOC_FNS = ("alloc::alloc", "alloc::alloc_zeroed", "alloc::realloc", "alloc::dealloc")
-MOVE_FNS = ("ptr::copy", "ptr::copy_nonoverlapping", "ptr::write_bytes", "ptr::swap", "ptr::swap_nonoverlapping", "mem::swap", "mem::replace", "ptr::replace")
+MOVE_FNS = ("ptr::copy", "ptr::copy_nonoverlapping", "ptr::write_bytes", "ptr::swap", "ptr::swap_nonoverlapping", "mem::swap", "mem::replace", "ptr::replace",
+            "_ptr::copy_to", "_ptr::copy_from", "_ptr::copy_to_nonoverlapping", "_ptr::copy_from_nonoverlapping", "_ptr::write_bytes", "_ptr::swap", "_ptr::replace")
 
 
 def _nonzero(p, pred):
